@@ -28,7 +28,17 @@ Definition schema_input_closed (S : schema) : bool :=
                      | _ => true
                      end) (s_types S).
 
-Definition schema_ok (S : schema) : bool := schema_no_typename S && schema_input_closed S.
+(** the root operation types are object types of the schema, and "String" (the type of __typename)
+    is not a composite type *)
+Definition composite_name (S : schema) (n : name) : bool :=
+  match raw_body S n with Some b => is_composite_body b | None => false end.
+Definition schema_roots_ok (S : schema) : bool :=
+  composite_name S (s_query S)
+  && match s_mutation S with Some n => composite_name S n | None => true end
+  && match s_subscription S with Some n => composite_name S n | None => true end
+  && negb (composite_name S n_String).
+
+Definition schema_ok (S : schema) : bool := schema_no_typename S && schema_input_closed S && schema_roots_ok S.
 
 (** every field selection of the document has a definition (5.3.1 holds and every selection set has
     a known parent type) *)
